@@ -42,6 +42,9 @@ func main() {
 		if what == "determinism" {
 			all = append(all, observeDeterminism(*plug, *out, 0)...)
 		}
+		if what == "nested" {
+			all = append(all, observeNestedDecl(*plug, *out)...)
+		}
 		if what == "sorted" {
 			all = append(all, observeSorted(*plug, *out)...)
 		}
